@@ -33,6 +33,10 @@ def neg1(a: float) -> float:
     return 1.0 - 0.4 * a
 
 
+def zero1(a: float) -> float:
+    return a - a
+
+
 def add2(a: float, b: float) -> float:
     return a + 0.5 * b
 
